@@ -44,9 +44,15 @@ OWNED = {
     "TRANSITION_HISTORY": re.compile(r"transitionTargets|previousTransitions|pinLastTransition|lastTransition"),
     "STRUCTURE_REPORT": re.compile(r"udpateActivity|getStateNames|deepGetNames|wideGetNames|_structure|_activityHistory|_prefixes|stateInfos"),
     "LOG": re.compile(r"logger|record\w+|::log\b|\.log\b|Method|StatusEvent|::context\b"),
-    "UTILITY_THEORY": re.compile(r"rng\b"),
+    "UTILITY_THEORY": re.compile(r"rng\b|[Uu]tili|[Rr]andom|[Rr]ank\b|Rank\b|resolveRandom|\bUP\b"),
     "SERIALIZATION": re.compile(r"$^"),
 }
+
+# zoo parts whose machines are declared differently under a switch (so their functions are not comparable across it):
+#   SERIALIZATION: z1 gives its one-sub-state regions a second sub-state (a width-1 region fails the library's BIT_WIDTH > 0 assertion);
+#   UTILITY_THEORY: without it the regions declared Utilitarian / Random are declared Composite / Resumable (ZUtilitarian, ZRandom), so the
+#   strategy-dispatch arms of every part differ by construction; the comparison keeps the parts whose *remaining* functions are comparable
+SHAPE_SWITCHES = {"SERIALIZATION": {"zoo1"}, "UTILITY_THEORY": {"zoo1"}}
 
 # pairs (config without X, config with X, X)
 PAIRS_QUICK = [("all-plans", "all", "PLANS"), ("all-history", "all-report", "TRANSITION_HISTORY"), ("all-report", "all", "STRUCTURE_REPORT"),
@@ -72,11 +78,29 @@ def check(ctx, F):
     consts = ctx.shared.setdefault("C15.consts", {})
     part = F.unit.name if F.unit else "?"
     flav = F.unit.flavour if F.unit else "include"
+    if F.unit and not F.unit.gcc_path:
+        flav += "/clang-path"        # the other member-dispatch mechanism is a different program text: never paired with the gcc-path units
     fp = {}
     for fid, b in F.bodies.items():
         if not b["inst"] or b.get("cls") not in CORE:
             continue
-        key = (b["cls"], F.spec(b.get("tid")) if "tid" in b else "", b["name"], len(b.get("params", [])))
+        spec = F.spec(b.get("tid")) if "tid" in b else ""
+        # `partial@<line>` names a partial specialisation by its line, which differs between the flavours: use its ordinal among the
+        # partial specialisations of the template instead
+        m = re.match(r"^partial@(\d+)$", spec or "")
+        if m:
+            lines = sorted(set(int(t["partial"].rsplit(":", 2)[1]) for t in F.types if t.get("tmpl") == b["cls"] and "partial" in t))
+            spec = "partial#%d" % (lines.index(int(m.group(1))) if int(m.group(1)) in lines else -1)
+        # overloads are told apart by their parameter types, not their count (compoActive(Control&) / compoActive(const Registry&); the
+        # constructor overloads that exist depend on the configuration)
+        def ptype(p):
+            t = F.type(p["tid"]) if p.get("tid") is not None else None
+            if t is not None:
+                return t.get("tmpl") or t.get("name") or "?"
+            return re.sub(r"hfsm2::(detail::)?|<.*$|\bconst\b|[\s&*]", "", p.get("ty") or p.get("t") or "?")
+        sig = ",".join(ptype(p) for p in b.get("params", []))
+        name = ("ctor" if b.get("kind") == "ctor" else b["name"]) + "(" + sig + ")"
+        key = (b["cls"], spec, name, len(b.get("params", [])))
         try:
             toks = fingerprint(F, fid)
         except AnalysisBroken:
@@ -99,7 +123,7 @@ def check(ctx, F):
                 pass
             consts.setdefault(name, {})[(cfg, flav)] = c
     check_effective_constants(ctx, F)
-    if flav == "include":
+    if flav.startswith("include"):
         C06.check_siblings(C03._Alias(ctx, {"C06.siblings": "C15.payload"}), F)
 
 
@@ -202,6 +226,8 @@ def final(ctx):
         for (cfg, part, flav), (fpa, la) in list(store.items()):
             if cfg != a or flav != "include":
                 continue
+            if feat in SHAPE_SWITCHES and part in SHAPE_SWITCHES[feat]:
+                continue      # the witness machine itself differs under this switch (see SHAPE_SWITCHES)
             other = store.get((b, part, flav))
             if other is None:
                 continue
@@ -214,7 +240,16 @@ def final(ctx):
                 if pa is None or pb is None:
                     ctx.undecided.append({"function": site, "reason": "path enumeration not possible in one configuration"})
                     continue
+                if feat in SHAPE_SWITCHES:
+                    # the zoo's machines differ in size under this switch (instantiations of every part see z1's types): compare the
+                    # paths with literal constants abstracted
+                    pa = set(tuple(re.sub(r"#\d+", "#N", t) for t in q) for q in pa)
+                    pb = set(tuple(re.sub(r"#\d+", "#N", t) for t in q) for q in pb)
                 ea, eb = erase(pa, rex), erase(pb, rex)
+                if feat == "UTILITY_THEORY":
+                    # utility theory adds whole arms (request kinds, strategies) to the kind / strategy dispatchers: a path of the enabled
+                    # build that runs through an owned event is such an arm; every other path must exist without the feature, and vice versa
+                    eb = erase(set(q for q in pb if not any(rex.search(t) for t in q)), rex) | (eb & ea)
                 ctx.instance("C15.non-interference", site, {"function": site, "without": a, "with": b, "paths": [len(pa), len(pb)]})
                 if ea != eb:
                     only_b = sorted(eb - ea, key=len)[:1]
